@@ -305,3 +305,41 @@ Example C06_cvarint_example :
   (match cvarint [1; 172; 2; 9] (mkst 1 0 0 []) with VOk v n _ => (v, n) | _ => (0, 0) end) = (300, 2) /\
   varint_dec [172; 2; 9] = (300, 2).
 Proof. vm_compute. split; reflexivity. Qed.
+
+(* ================================================================== 7. refinement: cursor machines = list models *)
+(* The machines above are the SAME functions as the list-based models that carry the round-trip theorems
+   (C19 ThriftWire.skip / decode, C07 ProtoMsg.wdec).  Proofs: proofs/RobustRefine.v.
+   suffix bs s = skipn (Z.to_nat (cur s)) bs, the part of the input not yet consumed. *)
+From DG Require Import RobustRefine.
+
+(* (A) Thrift SkipGo.  bytes_ok and |bs| < 2^31 are needed for one reason only: the code (and the cursor
+   machine) reads a string length as int(uint32), ThriftWire.skipstr as a signed int32; they agree exactly
+   when no length >= 2^31 can fit in the buffer. *)
+Theorem C06_skip_refines :
+  forall bs t, bytes_ok bs -> zlen bs < 2 ^ 31 ->
+  match skip_go_m t bs with
+  | Ok s => skip_go t bs = Some (skipn (Z.to_nat (cur s)) bs)
+  | Er _ _ => skip_go t bs = None
+  | _ => False
+  end.
+Proof. intros bs t Hb Hl. exact (skip_refines bs Hb Hl t). Qed.
+Print Assumptions C06_skip_refines.
+
+(* general form: any start state in bounds, any depth budget, any fuel *)
+Theorem C06_skip_refines_general :
+  forall bs, bytes_ok bs -> zlen bs < 2 ^ 31 ->
+  forall fuel t d s, inv bs s ->
+  match srun bs fuel (KVal t d) s with
+  | Ok s' => skip (Z.to_nat d) t (suffix bs s) = Some (suffix bs s')
+  | Er _ _ => skip (Z.to_nat d) t (suffix bs s) = None
+  | OutOfFuel => True
+  | _ => False
+  end.
+Proof. exact srun_ref_val. Qed.
+Print Assumptions C06_skip_refines_general.
+
+Example C06_skip_refines_example :
+  let bs := [11; 0; 1; 0; 0; 0; 2; 104; 105; 13; 0; 2; 8; 11; 0; 0; 0; 1; 0; 0; 0; 7; 0; 0; 0; 1; 120; 0; 9; 9] in
+  verdict (skip_go_m T_STRUCT bs) = (0, 28, 2) /\ skip_go T_STRUCT bs = Some [9; 9] /\
+  verdict (skip_go_m T_MAP [11; 12; 255; 255; 255; 255]) = (E_SIZE, 6, 1) /\ skip_go T_MAP [11; 12; 255; 255; 255; 255] = None.
+Proof. vm_compute. repeat split; reflexivity. Qed.
